@@ -67,19 +67,99 @@ func hx(b []byte) string {
 
 // peer is one end of a TCP connection held by the harness.
 type peer struct {
-	mu    sync.Mutex
-	conn  net.Conn
-	recv  []byte
-	ended bool
-	rst   bool
+	mu     sync.Mutex
+	conn   net.Conn
+	recv   []byte
+	ended  bool
+	rst    bool
+	paused bool
+	wake   chan struct{}
+	parked chan struct{}
+	gone   bool // the reader goroutine has returned
+	// discard: the proxy has closed this paused peer's socket; it reads again, only to see the
+	// end of the connection (what was still in the kernel's buffer is not part of `recv`)
+	discard bool
+}
+
+// setPaused: a paused peer does not call Read (the kernel's receive buffer fills up).
+func (p *peer) setPaused(v bool) {
+	p.mu.Lock()
+	was := p.paused
+	p.paused = v
+	if p.wake == nil {
+		p.wake = make(chan struct{}, 1)
+	}
+	if p.parked == nil {
+		p.parked = make(chan struct{}, 1)
+	}
+	gone := p.gone
+	p.mu.Unlock()
+	if p.conn == nil {
+		return
+	}
+	if v && !was {
+		select {
+		case <-p.parked:
+		default:
+		}
+	}
+	if v {
+		// kick the reader out of a blocked Read, and wait until it is parked (a Read that is
+		// being woken by the deadline could still pick up data that arrives right now)
+		p.conn.SetReadDeadline(time.Now())
+		if !was && !gone {
+			select {
+			case <-p.parked:
+			case <-time.After(time.Second):
+			}
+		}
+	} else {
+		p.conn.SetReadDeadline(time.Time{})
+		select {
+		case p.wake <- struct{}{}:
+		default:
+		}
+	}
 }
 
 func (p *peer) reader() {
 	buf := make([]byte, 65536)
-	for {
-		n, err := p.conn.Read(buf)
+	p.mu.Lock()
+	if p.wake == nil {
+		p.wake = make(chan struct{}, 1)
+	}
+	if p.parked == nil {
+		p.parked = make(chan struct{}, 1)
+	}
+	p.mu.Unlock()
+	defer func() {
 		p.mu.Lock()
-		p.recv = append(p.recv, buf[:n]...)
+		p.gone = true
+		p.mu.Unlock()
+	}()
+	for {
+		p.mu.Lock()
+		paused := p.paused
+		p.mu.Unlock()
+		if paused {
+			select {
+			case p.parked <- struct{}{}:
+			default:
+			}
+			<-p.wake
+			continue
+		}
+		n, err := p.conn.Read(buf)
+		if ne, ok := err.(net.Error); ok && ne.Timeout() {
+			p.mu.Lock()
+			p.recv = append(p.recv, buf[:n]...)
+			p.mu.Unlock()
+			continue
+		}
+		p.mu.Lock()
+		if !p.discard {
+			p.recv = append(p.recv, buf[:n]...)
+		}
 		if err != nil {
 			p.ended = true
 			if errors.Is(err, syscall.ECONNRESET) {
@@ -115,6 +195,255 @@ type upServer struct {
 	ln       net.Listener
 	addr     string
 	accepted chan net.Conn
+	mu       sync.Mutex
+	stalled  bool
+	resume   chan struct{}
+	fillers  map[string]net.Conn
+}
+
+// stall makes further dials to this server block: the listen backlog is shrunk to 0, the
+// accept loop stops accepting and the accept queue is filled up with the harness's own
+// connections, so the kernel drops the next SYN (it is retransmitted after about a second).
+// Returns false if the queue could not be filled.
+func (u *upServer) stall() bool {
+	u.mu.Lock()
+	u.stalled = true
+	u.resume = make(chan struct{})
+	u.fillers = map[string]net.Conn{}
+	u.mu.Unlock()
+	tl := u.ln.(*net.TCPListener)
+	rc, err := tl.SyscallConn()
+	if err != nil {
+		return false
+	}
+	rc.Control(func(fd uintptr) { syscall.Listen(int(fd), 0) })
+	tl.SetDeadline(time.Now()) // kick the accept loop out of Accept
+	time.Sleep(5 * time.Millisecond)
+	for i := 0; i < 16; i++ {
+		c, err := net.DialTimeout("tcp", u.addr, 250*time.Millisecond)
+		if err != nil {
+			return true
+		}
+		u.mu.Lock()
+		u.fillers[c.LocalAddr().String()] = c
+		u.mu.Unlock()
+	}
+	return false
+}
+
+func (u *upServer) release() {
+	tl := u.ln.(*net.TCPListener)
+	if rc, err := tl.SyscallConn(); err == nil {
+		rc.Control(func(fd uintptr) { syscall.Listen(int(fd), 128) })
+	}
+	tl.SetDeadline(time.Time{})
+	u.mu.Lock()
+	u.stalled = false
+	close(u.resume)
+	u.mu.Unlock()
+}
+
+func (u *upServer) acceptLoop(ln net.Listener) {
+	for {
+		u.mu.Lock()
+		st, rs := u.stalled, u.resume
+		u.mu.Unlock()
+		if st {
+			<-rs
+			continue
+		}
+		c, err := ln.Accept()
+		if err != nil {
+			if ne, ok := err.(net.Error); ok && ne.Timeout() {
+				time.Sleep(time.Millisecond)
+				continue
+			}
+			return
+		}
+		u.mu.Lock()
+		fc, isFiller := u.fillers[c.RemoteAddr().String()]
+		u.mu.Unlock()
+		if isFiller {
+			fc.Close()
+			c.Close()
+			continue
+		}
+		u.accepted <- c
+	}
+}
+
+// setLabels records the label sets the byte counters of this connection's links must carry:
+// the proxy's name, listen address and upstream at the time the connection is made.
+func (w *world) setLabels(cn *conn) {
+	p := w.proxy(cn.proxy)
+	if p == nil {
+		return
+	}
+	p.Lock()
+	listen, up := p.Listen, p.Upstream
+	p.Unlock()
+	for sym, addr := range w.upAddr {
+		if addr == up {
+			up = sym
+		}
+	}
+	cn.labUp = fmt.Sprintf("upstream,%s,%s,%s", cn.proxy, listen, up)
+	cn.labDn = fmt.Sprintf("downstream,%s,%s,%s", cn.proxy, listen, up)
+	w.pushed[cn.labUp] += 0
+	w.pushed[cn.labDn] += 0
+}
+
+// labelOracle (C20): every counter series carries the name, listen address and upstream of
+// a proxy configuration under which a connection was made, and none has counted more bytes
+// than the peers wrote on the connections made under that configuration.
+func (w *world) labelOracle(i int, fail func(int, string, string, string, string, string, string) *report.Failure, got string) *report.Failure {
+	for _, f := range strings.Fields(got) {
+		if !(strings.HasPrefix(f, "R[") || strings.HasPrefix(f, "S[")) {
+			continue
+		}
+		k, v, ok := strings.Cut(f[2:], "]=")
+		if !ok {
+			continue
+		}
+		n, _ := strconv.ParseInt(v, 10, 64)
+		max, known := w.pushed[k]
+		if !known {
+			return fail(i, "oracle", "C20", "a series per (direction, proxy, listener, upstream) in use", f,
+				"a byte counter carries labels under which no connection was ever made", "e6:C20:unknown-labels")
+		}
+		if n > max {
+			return fail(i, "oracle", "C20", fmt.Sprintf("at most %d", max), f,
+				fmt.Sprintf("a byte counter shows %d bytes, but only %d bytes were sent on connections made under its labels", n, max), "e6:C20:overcount")
+		}
+	}
+	return nil
+}
+
+// sinkBlocked counts the links whose sink goroutine is blocked inside a socket Write
+// (waiting for the network).
+func sinkBlocked() int {
+	n := runtime.Stack(stackBuf, true)
+	k := 0
+	for _, g := range strings.Split(string(stackBuf[:n]), "\n\n") {
+		if strings.Contains(g, "toxiproxy/v2.(*ToxicLink).write") && strings.Contains(g, "[IO wait") && strings.Contains(g, ").Write(") {
+			k++
+		}
+	}
+	return k
+}
+
+// facingSndBuf sets the send buffer of the proxy's socket that faces peer pr of connection cn
+// (k = 0: the client, 1: the upstream server).
+func (w *world) facingSndBuf(cn *conn, k int, pr *peer, size int) {
+	p := w.proxy(cn.proxy)
+	if p == nil || pr == nil || pr.conn == nil {
+		return
+	}
+	toxiproxy.VerifEachConn(p, func(_ string, nc net.Conn) {
+		match := (k == 0 && nc.RemoteAddr().String() == pr.conn.LocalAddr().String()) ||
+			(k == 1 && nc.LocalAddr().String() == pr.conn.RemoteAddr().String())
+		if tc, ok := nc.(*net.TCPConn); ok && match {
+			tc.SetWriteBuffer(size)
+		}
+	})
+}
+
+// releasePredictedEnded: a paused peer cannot see the end of its connection. Where the model
+// predicts that the connection has ended at that peer, the peer reads again — in discard mode:
+// what was still in the kernel's buffer is not part of `recv` — so that the end can be
+// observed (the model only decides when to look; whether the end is there is observed).
+func (w *world) releasePredictedEnded(want string) {
+	for _, f := range strings.Fields(want) {
+		name, rest, ok := strings.Cut(f, ":cli=")
+		if !ok {
+			continue
+		}
+		parts := strings.Split(rest, ";srv=")
+		cn := w.conns[name]
+		if cn == nil || len(parts) != 2 {
+			continue
+		}
+		for k, pr := range []*peer{cn.client, cn.server} {
+			fs := strings.Split(parts[k], ",")
+			if pr == nil || pr.conn == nil || len(fs) < 2 || fs[1] != "1" {
+				continue
+			}
+			pr.mu.Lock()
+			paused := pr.paused
+			if paused {
+				pr.discard = true
+			}
+			pr.mu.Unlock()
+			if paused {
+				pr.setPaused(false)
+			}
+		}
+	}
+}
+
+// stallStop (C03: a client dialling concurrently with the state change): client cname is
+// accepted by proxy pname while the upstream dial cannot complete; the stopping request is
+// issued; the upstream is released 200 ms later.
+func (w *world) stallStop(pname, cname, how, addr string, connectRes *string) {
+	p := w.proxy(pname)
+	var u *upServer
+	if p != nil {
+		for sym, a := range w.upAddr {
+			if a == p.Upstream {
+				u = w.ups[sym]
+			}
+		}
+	}
+	if u == nil || u.ln == nil {
+		return
+	}
+	for len(u.accepted) > 0 {
+		(<-u.accepted).Close()
+	}
+	if !u.stall() {
+		u.release()
+		*connectRes = "harness-could-not-stall"
+		return
+	}
+	c, err := net.DialTimeout("tcp", addr, time.Second)
+	if err != nil {
+		u.release()
+		*connectRes = "refused"
+		return
+	}
+	cl := &peer{conn: c}
+	go cl.reader()
+	cn := &conn{name: cname, proxy: pname, client: cl, ctr: byte(1 + 60*len(w.conns))}
+	w.setLabels(cn)
+	time.Sleep(60 * time.Millisecond) // the accept loop takes the client and starts dialling
+	go func() {
+		time.Sleep(200 * time.Millisecond)
+		u.release()
+	}()
+	if how == "disable" {
+		w.api("PATCH", "/proxies/"+pname, `{"enabled":false}`)
+	} else {
+		w.api("DELETE", "/proxies/"+pname, "")
+		for k, n := range w.porder {
+			if n == pname {
+				w.porder = append(w.porder[:k], w.porder[k+1:]...)
+				break
+			}
+		}
+	}
+	w.stopReturned = time.Now()
+	select {
+	case sc := <-u.accepted:
+		sp := &peer{conn: sc}
+		go sp.reader()
+		cn.server = sp
+	case <-time.After(4 * time.Second):
+		// the dial never arrived: the pair has no upstream side
+		sp := &peer{ended: true}
+		cn.server = sp
+	}
+	w.conns[cname] = cn
+	w.corder = append(w.corder, cname)
 }
 
 type conn struct {
@@ -123,6 +452,8 @@ type conn struct {
 	client *peer
 	server *peer
 	ctr    byte
+	labUp  string // counter labels of its two links: the proxy's configuration when it was accepted
+	labDn  string
 }
 
 func freeAddr() string {
@@ -154,6 +485,10 @@ func census() (src, stubs, sinks, loops int, sites map[string]int) {
 			sites["link.write:"+blockedAt(g)]++
 		case strings.Contains(g, "toxiproxy/v2.(*Proxy).server"), strings.Contains(g, "toxiproxy/v2.(*Proxy).freeBlocker"):
 			loops++
+		case strings.Contains(g, "github.com/Shopify/toxiproxy/v2") && !strings.Contains(g, "verifharness/"):
+			// any other goroutine running toxiproxy code (the drain goroutines of a closed stub
+			// and of a failed sink, helpers of RemoveToxic, ...)
+			sites["other:"+blockedAt(g)]++
 		}
 	}
 	return
@@ -193,7 +528,9 @@ type world struct {
 	conns    map[string]*conn
 	corder   []string
 	lastConn string
+	pushed   map[string]int64 // label set -> bytes the harness's peers wrote on connections started under it
 	base     [4]int
+	stopReturned time.Time
 }
 
 func (w *world) api(method, path, body string) int {
@@ -289,7 +626,7 @@ func (w *world) observe(res string, model string) string {
 		}
 	}
 	sort.Strings(ms)
-	return fmt.Sprintf("%s C %s P %s G=%d/%d/%d/%d M %s", res, strings.Join(cs, " "), strings.Join(ps, " "), a, b, c, d, strings.Join(ms, " "))
+	return strings.Join(strings.Fields(fmt.Sprintf("%s C %s P %s G=%d/%d/%d/%d M %s", res, strings.Join(cs, " "), strings.Join(ps, " "), a, b, c, d, strings.Join(ms, " "))), " ")
 }
 
 func (w *world) labels(m *dto.Metric) string {
@@ -369,7 +706,7 @@ func canonModel(m string) string {
 	cs := strings.Fields(cpart)
 	sort.Strings(cs)
 	sort.Strings(ps)
-	return fmt.Sprintf("%s C %s P %s G=%d/%d/%d/%d M %s", head, strings.Join(cs, " "), strings.Join(ps, " "), g[0], g[1], g[2], g[3], strings.Join(ms, " "))
+	return strings.Join(strings.Fields(fmt.Sprintf("%s C %s P %s G=%d/%d/%d/%d M %s", head, strings.Join(cs, " "), strings.Join(ps, " "), g[0], g[1], g[2], g[3], strings.Join(ms, " "))), " ")
 }
 
 func (e *Engine) Run(ops []string, res *report.Result) *report.Failure {
@@ -383,7 +720,7 @@ func (e *Engine) Run(ops []string, res *report.Result) *report.Failure {
 		return &report.Failure{Kind: kind, Property: prop, Ops: append([]string(nil), ops...), At: at,
 			Model: model, Impl: implS, What: what, Sig: sig}
 	}
-	g0a, g0b, g0c, g0d, _ := census()
+	g0a, g0b, g0c, g0d, sites0 := census()
 	fd0 := fdCount()
 	reg := prometheus.NewRegistry()
 	mc := toxiproxy.NewMetricsContainer(reg)
@@ -392,14 +729,16 @@ func (e *Engine) Run(ops []string, res *report.Result) *report.Failure {
 	logger := zerolog.Nop()
 	srv := toxiproxy.NewServer(mc, logger)
 	w := &world{e: e, srv: srv, h: srv.Routes(), reg: reg, ups: map[string]*upServer{}, upAddr: map[string]string{},
-		proxies: map[string]string{}, conns: map[string]*conn{}, base: [4]int{g0a, g0b, g0c, g0d}}
+		proxies: map[string]string{}, conns: map[string]*conn{}, pushed: map[string]int64{}, base: [4]int{g0a, g0b, g0c, g0d}}
 	var result *report.Failure
 	var shape []string
 	defer func() {
 		for _, c := range w.conns {
 			c.client.conn.Close()
-			if c.server != nil {
+			c.client.setPaused(false)
+			if c.server != nil && c.server.conn != nil {
 				c.server.conn.Close()
+				c.server.setPaused(false)
 			}
 		}
 		srv.Collection.Clear()
@@ -408,9 +747,26 @@ func (e *Engine) Run(ops []string, res *report.Result) *report.Failure {
 				u.ln.Close()
 			}
 		}
+		// let what this episode started wind down before the next one takes its baseline
+		// (an episode that stopped at a failure skips the end-of-episode wait)
+		deadline := time.Now().Add(3 * time.Second)
+		for time.Now().Before(deadline) {
+			a, b, c, d, _ := census()
+			if a <= g0a && b <= g0b && c <= g0c && d <= g0d {
+				break
+			}
+			time.Sleep(5 * time.Millisecond)
+		}
 	}()
 	wantsProp := func(p string) bool { return e.Props == "" || strings.Contains(","+e.Props+",", ","+p+",") }
+	harnessStuck := false
+	pauseIssued := false
+	wasBlocked := 0
 	for i, op := range ops {
+		if harnessStuck {
+			res.Count("episode:stopped-harness-write-blocked")
+			break
+		}
 		f := strings.Fields(op)
 		res.Ops++
 		line := op
@@ -431,15 +787,7 @@ func (e *Engine) Run(ops []string, res *report.Result) *report.Failure {
 						panic(err)
 					}
 					u.ln = ln
-					go func() {
-						for {
-							c, err := ln.Accept()
-							if err != nil {
-								return
-							}
-							u.accepted <- c
-						}
-					}()
+					go u.acceptLoop(ln)
 				} else if f[2] == "0" && u.ln != nil {
 					u.ln.Close()
 					u.ln = nil
@@ -557,10 +905,11 @@ func (e *Engine) Run(ops []string, res *report.Result) *report.Failure {
 						return
 					}
 				}
+				w.setLabels(cn)
 				w.conns[f[2]] = cn
 				w.corder = append(w.corder, f[2])
 			}
-		case "send":
+		case "send", "sendnw":
 			c := w.conns[f[1]]
 			if c == nil {
 				res.Count("skipped:no-conn")
@@ -575,14 +924,111 @@ func (e *Engine) Run(ops []string, res *report.Result) *report.Failure {
 					c.ctr = 1
 				}
 			}
-			line = fmt.Sprintf("send %s %s %s", f[1], f[2], hx(data))
+			line = fmt.Sprintf("%s %s %s %s", f[0], f[1], f[2], hx(data))
 			exec = func() {
+				pc := c.server.conn
 				if f[2] == "up" {
-					c.client.conn.Write(data)
+					pc = c.client.conn
+					w.pushed[c.labUp] += int64(len(data))
 				} else {
-					c.server.conn.Write(data)
+					w.pushed[c.labDn] += int64(len(data))
+				}
+				pc.SetWriteDeadline(time.Now().Add(3 * time.Second))
+				if _, err := pc.Write(data); err != nil {
+					if ne, ok := err.(net.Error); ok && ne.Timeout() {
+						harnessStuck = true
+					}
 				}
 			}
+		case "abort":
+			c := w.conns[f[1]]
+			if c == nil {
+				res.Count("skipped:no-conn")
+				continue
+			}
+			exec = func() {
+				pr := c.client
+				if f[2] == "server" {
+					pr = c.server
+				}
+				if tc, ok := pr.conn.(*net.TCPConn); ok {
+					tc.SetLinger(0)
+				}
+				pr.conn.Close()
+				pr.setPaused(false)
+			}
+		case "pause":
+			c := w.conns[f[1]]
+			if c == nil {
+				res.Count("skipped:no-conn")
+				continue
+			}
+			// more than the kernel absorbs on one loopback connection once the proxy's send buffer
+			// has been shrunk (below; the peer's receive buffer is left alone — shrinking it clamps
+			// the window for good): the proxy's write towards the paused peer blocks
+			const fill = 400000
+			data := make([]byte, fill)
+			for k := range data {
+				data[k] = c.ctr
+				c.ctr++
+				if c.ctr == 0 {
+					c.ctr = 1
+				}
+			}
+			line = fmt.Sprintf("pause %s %s %s", f[1], f[2], hx(data))
+			exec = func() {
+				pr, other := c.client, c.server
+				w.pushed[c.labDn] += int64(len(data))
+				if f[2] == "server" {
+					pr, other = c.server, c.client
+					w.pushed[c.labDn] -= int64(len(data))
+					w.pushed[c.labUp] += int64(len(data))
+				}
+				pr.setPaused(true)
+				k := 0
+				if f[2] == "server" {
+					k = 1
+				}
+				w.facingSndBuf(c, k, pr, 4096)
+				other.conn.SetWriteDeadline(time.Now().Add(3 * time.Second))
+				if _, err := other.conn.Write(data); err != nil {
+					if ne, ok := err.(net.Error); ok && ne.Timeout() {
+						harnessStuck = true
+					}
+				}
+				pauseIssued = true
+			}
+		case "resume":
+			c := w.conns[f[1]]
+			if c == nil {
+				res.Count("skipped:no-conn")
+				continue
+			}
+			exec = func() {
+				pr := c.client
+				if f[2] == "server" {
+					pr = c.server
+				}
+				// undo the buffer shrinking of `pause`
+				k := 0
+				if f[2] == "server" {
+					k = 1
+				}
+				pr.mu.Lock()
+				was := pr.paused
+				pr.mu.Unlock()
+				if was {
+					w.facingSndBuf(c, k, pr, 1<<20)
+				}
+				pr.setPaused(false)
+			}
+		case "stallstop":
+			addr, ok := w.proxies[f[1]]
+			if !ok || w.conns[f[2]] != nil {
+				res.Count("skipped:stallstop")
+				continue
+			}
+			exec = func() { w.stallStop(f[1], f[2], f[3], addr, &connectRes) }
 		case "close":
 			c := w.conns[f[1]]
 			if c == nil {
@@ -611,20 +1057,64 @@ func (e *Engine) Run(ops []string, res *report.Result) *report.Failure {
 			continue
 		}
 		exec()
+		mBlocked := 0
+		if pauseIssued {
+			mBlocked, _ = strconv.Atoi(strings.TrimSpace(e.D.Ask("blocked")))
+		}
+		needWait := mBlocked > 0 && (f[0] == "pause" || mBlocked > wasBlocked)
+		wasBlocked = mBlocked
+		if needWait {
+			// the model's sink is stuck in a write to a peer that does not read: wait until the
+			// real one is (the kernel's buffers have to fill up first)
+			// (stuck = seen blocked at 80 consecutive looks 5 ms apart; while data still moves the
+			// goroutine is in and out of waits — up to a delayed ACK long with the small send buffer)
+			t0 := time.Now()
+			streak := 0
+			for streak < 80 && time.Since(t0) < 3*time.Second {
+				if sinkBlocked() >= mBlocked {
+					streak++
+				} else {
+					streak = 0
+				}
+				time.Sleep(5 * time.Millisecond)
+			}
+			if streak < 80 {
+				res.Count("episode:stopped-kernel-absorbed-the-fill")
+				break
+			}
+		}
 		res.Count("op:" + f[0])
 		want := canonModel(model)
+		want0 := want
+		// the model's virtual time for this operation scales the real-time allowance
+		virt, _ := strconv.ParseInt(strings.TrimSpace(e.D.Ask("elapsed")), 10, 64)
+		if wantsProp("C15") && (f[0] == "disable" || f[0] == "delete" || f[0] == "stallstop") {
+			// (before any paused peer is released: the peers are alive and silent here)
+			if of := w.stopLeakOracle(i, fail, g0a, g0b, g0c, time.Duration(virt)); of != nil {
+				result = of
+				break
+			}
+		}
+		w.releasePredictedEnded(want0)
 		// wait (real time) until the implementation shows what the model predicts
 		var got string
 		pollEvery := 500 * time.Microsecond
-		deadline := time.Now().Add(3 * time.Second)
+		deadline := time.Now().Add(3*time.Second + 4*time.Duration(virt))
+		if f[0] == "sendnw" {
+			// the state "at this instant": it must show up before the first timer can fire
+			deadline = time.Now().Add(150 * time.Millisecond)
+		} else if e.OracleOnly {
+			// searching with the model-free oracles only: the model is a guide for waiting, no more
+			deadline = time.Now().Add(300*time.Millisecond + 2*time.Duration(virt))
+		}
 		for {
 			head := strings.Fields(want)[0]
 			r := connectRes
 			if f[0] != "connect" {
 				r = head
 			}
-			got = w.observe(r, want)
-			want = reconcile(want, got)
+			got = w.observe(r, want0)
+			want = reconcile(want0, got) // (afresh every time: a counter inside its range may still move)
 			if got == want || time.Now().After(deadline) {
 				break
 			}
@@ -633,18 +1123,34 @@ func (e *Engine) Run(ops []string, res *report.Result) *report.Failure {
 				pollEvery += pollEvery / 2
 			}
 		}
-		if got == want {
+		if got == want && f[0] != "sendnw" {
 			// and that it stays so
 			time.Sleep(3 * time.Millisecond)
 			r := connectRes
 			if f[0] != "connect" {
 				r = strings.Fields(want)[0]
 			}
-			got = w.observe(r, want)
+			got = w.observe(r, want0)
+			want = reconcile(want0, got)
+		}
+		if os.Getenv("E6TRACE") != "" {
+			cut := func(x string) string {
+				if len(x) > 400 {
+					return x[:400] + "…"
+				}
+				return x
+			}
+			fmt.Fprintf(os.Stderr, "op %d %s\n  want %s\n  got  %s\n", i, cut(line), cut(want), cut(got))
 		}
 		// ---- model-free oracles
-		if wantsProp("C03") && (f[0] == "disable" || f[0] == "delete") {
+		if wantsProp("C03") && (f[0] == "disable" || f[0] == "delete" || f[0] == "stallstop") {
 			if of := w.downOracle(i, fail, f[1]); of != nil {
+				result = of
+				break
+			}
+		}
+		if wantsProp("C20") {
+			if of := w.labelOracle(i, fail, got); of != nil {
 				result = of
 				break
 			}
@@ -659,28 +1165,46 @@ func (e *Engine) Run(ops []string, res *report.Result) *report.Failure {
 	if result == nil || e.OracleOnly {
 		for _, c := range w.conns {
 			c.client.conn.Close()
-			if c.server != nil {
+			c.client.setPaused(false)
+			if c.server != nil && c.server.conn != nil {
 				c.server.conn.Close()
+				c.server.setPaused(false)
 			}
 		}
 		srv.Collection.Clear()
 		var a, b, c, d int
 		var sites map[string]int
-		deadline := time.Now().Add(2 * time.Second)
+		e.D.Ask("teardown")
+		virt, _ := strconv.ParseInt(strings.TrimSpace(e.D.Ask("elapsed")), 10, 64)
+		deadline := time.Now().Add(2*time.Second + 4*time.Duration(virt))
 		for {
 			a, b, c, d, sites = census()
-			if (a == g0a && b == g0b && c == g0c && d == g0d) || time.Now().After(deadline) {
+			oth := 0
+			for k, n := range sites {
+				if strings.HasPrefix(k, "other:") && n > sites0[k] {
+					oth += n - sites0[k]
+				}
+			}
+			if (a == g0a && b == g0b && c == g0c && d == g0d && oth == 0) || time.Now().After(deadline) {
 				break
 			}
 			time.Sleep(5 * time.Millisecond)
 		}
-		if wantsProp("C15") && (a != g0a || b != g0b || c != g0c || d != g0d) {
+		others := 0
+		for k, n := range sites {
+			if strings.HasPrefix(k, "other:") && n > sites0[k] {
+				others += n - sites0[k]
+			}
+		}
+		if wantsProp("C15") && (a != g0a || b != g0b || c != g0c || d != g0d || others != 0) {
 			var ks []string
-			for k := range sites {
-				ks = append(ks, k)
+			for k, n := range sites {
+				if n > sites0[k] {
+					ks = append(ks, k)
+				}
 			}
 			sort.Strings(ks)
-			of := fail(len(ops)-1, "oracle", "C15", "", fmt.Sprintf("goroutines left: read=%d stubs=%d write=%d loops=%d at %v", a-g0a, b-g0b, c-g0c, d-g0d, ks),
+			of := fail(len(ops)-1, "oracle", "C15", "", fmt.Sprintf("goroutines left: read=%d stubs=%d write=%d loops=%d other=%d at %v", a-g0a, b-g0b, c-g0c, d-g0d, others, ks),
 				"after every connection ended and every proxy was deleted, goroutines of toxiproxy code remain", "e6:C15:leak:"+strings.Join(ks, "|"))
 			if result == nil || e.OracleOnly {
 				result = of
@@ -696,6 +1220,41 @@ func (e *Engine) Run(ops []string, res *report.Result) *report.Failure {
 		}
 	}
 	return result
+}
+
+// stopLeakOracle (C15): once every proxy is disabled or deleted, no goroutine serving a
+// connection may remain — whatever the peers do (they are still alive here: a peer that does
+// not read, or never closes, must not keep toxiproxy's goroutines alive after the stop).
+func (w *world) stopLeakOracle(i int, fail func(int, string, string, string, string, string, string) *report.Failure, g0a, g0b, g0c int, virt time.Duration) *report.Failure {
+	for _, n := range w.porder {
+		if p := w.proxy(n); p != nil {
+			p.Lock()
+			en := p.Enabled
+			p.Unlock()
+			if en {
+				return nil
+			}
+		}
+	}
+	deadline := time.Now().Add(2*time.Second + 4*virt)
+	for {
+		a, b, c, _, sites := census()
+		if a <= g0a && b <= g0b && c <= g0c {
+			return nil
+		}
+		if time.Now().After(deadline) {
+			var ks []string
+			for k := range sites {
+				if !strings.HasPrefix(k, "other:") {
+					ks = append(ks, k)
+				}
+			}
+			sort.Strings(ks)
+			return fail(i, "oracle", "C15", "", fmt.Sprintf("goroutines left: read=%d stubs=%d write=%d at %v", a-g0a, b-g0b, c-g0c, ks),
+				"every proxy is disabled or deleted, yet goroutines serving its connections remain (the peers are still alive)", "e6:C15:leak-after-stop")
+		}
+		time.Sleep(5 * time.Millisecond)
+	}
 }
 
 // downOracle (C03): after the call returned, the old address refuses and both peers of every
